@@ -61,9 +61,27 @@ type caseT struct {
 	OD1     bool   `json:"od1"`     // outer decoration's interceptor of the other kind set?
 	OD2     bool   `json:"od2"`     // inner ...
 	HErr    bool   `json:"herr"`    // application handler fails
+	// Seq, when not empty, makes this a SHARING case: one decorated description / registry is
+	// contributed (HandlerMap.ForEach -> RegisterService) to len(Seq) carriers of the same type
+	// (direct: the decorated handler is called len(Seq) times), the k-th with the transport-level
+	// interceptor Seq[k] of the called kind: 0 = none, 1 = A, 2 = B (distinct, both call onward). T is unused.
+	Seq []int `json:"seq,omitempty"`
+}
+
+var seqNames = []string{"nil", "A", "B"}
+
+func (c caseT) seqStr() string {
+	var s []string
+	for _, x := range c.Seq {
+		s = append(s, seqNames[x])
+	}
+	return "[" + strings.Join(s, ",") + "]"
 }
 
 func (c caseT) chainStr() string {
+	if len(c.Seq) > 0 {
+		return fmt.Sprintf("seq=%s,D1=%s,D2=%s", c.seqStr(), behNames[c.D1], behNames[c.D2])
+	}
 	return fmt.Sprintf("T=%s,D1=%s,D2=%s", behNames[c.T], behNames[c.D1], behNames[c.D2])
 }
 
@@ -311,9 +329,12 @@ type chainEl struct {
 	beh int
 }
 
-func (c caseT) chain() []chainEl {
+func (c caseT) chain() []chainEl { return c.chainWith("T", c.T) }
+
+// chainWith: the interceptors on the path of a call whose transport-level interceptor is (who, beh)
+func (c caseT) chainWith(who string, beh int) []chainEl {
 	var ch []chainEl
-	for _, el := range []chainEl{{"T", c.T}, {"D1", c.D1}, {"D2", c.D2}} {
+	for _, el := range []chainEl{{who, beh}, {"D1", c.D1}, {"D2", c.D2}} {
 		if el.beh != bNil {
 			ch = append(ch, el)
 		}
@@ -330,8 +351,7 @@ type expectation struct {
 	msg  string
 }
 
-func expect(c caseT, method string) expectation {
-	ch := c.chain()
+func expect(c caseT, ch []chainEl, method string) expectation {
 	var ev func(i int) expectation
 	ev = func(i int) expectation {
 		if i == len(ch) {
@@ -396,6 +416,11 @@ func classifyLog(got, want []string) string {
 	if cnt["H"] == 0 && wantSet["H"] {
 		return "handler-not-run"
 	}
+	for _, g := range got {
+		if !wantSet[g] {
+			return "unexpected-interceptor"
+		}
+	}
 	for _, w := range want {
 		if cnt[w] == 0 {
 			return "interceptor-skipped"
@@ -405,6 +430,17 @@ func classifyLog(got, want []string) string {
 		return "order"
 	}
 	return "log-mismatch"
+}
+
+// target is one carrier instance with its transport-level interceptors
+type target struct {
+	who string
+	beh int
+	tU  grpc.UnaryServerInterceptor
+	tS  grpc.StreamServerInterceptor
+	ipc *inprocgrpc.Channel
+	hs  *httpgrpc.Server
+	reg grpc.ServiceRegistrar
 }
 
 type callResult struct {
@@ -436,8 +472,8 @@ func runCase(c caseT, verbose bool) (probs []problem, observed string) {
 	d0 := makeDesc(c, l)
 	snap0 := snapshot(d0)
 
-	var tU, outU, inU grpc.UnaryServerInterceptor
-	var tS, outS, inS grpc.StreamServerInterceptor
+	var outU, inU grpc.UnaryServerInterceptor
+	var outS, inS grpc.StreamServerInterceptor
 	other := func(set bool) int {
 		if set {
 			return bPass
@@ -445,44 +481,67 @@ func runCase(c caseT, verbose bool) (probs []problem, observed string) {
 		return bNil
 	}
 	if c.Kind == "unary" {
-		tU, outU, inU = mkUnary(l, "T", c.T), mkUnary(l, "D1", c.D1), mkUnary(l, "D2", c.D2)
-		tS, outS, inS = mkStream(l, "xT", other(c.OT)), mkStream(l, "xD1", other(c.OD1)), mkStream(l, "xD2", other(c.OD2))
+		outU, inU = mkUnary(l, "D1", c.D1), mkUnary(l, "D2", c.D2)
+		outS, inS = mkStream(l, "xD1", other(c.OD1)), mkStream(l, "xD2", other(c.OD2))
 	} else {
-		tS, outS, inS = mkStream(l, "T", c.T), mkStream(l, "D1", c.D1), mkStream(l, "D2", c.D2)
-		tU, outU, inU = mkUnary(l, "xT", other(c.OT)), mkUnary(l, "xD1", other(c.OD1)), mkUnary(l, "xD2", other(c.OD2))
+		outS, inS = mkStream(l, "D1", c.D1), mkStream(l, "D2", c.D2)
+		outU, inU = mkUnary(l, "xD1", other(c.OD1)), mkUnary(l, "xD2", other(c.OD2))
 	}
 
-	// the carrier's registry
-	var registry grpc.ServiceRegistrar
-	var hm grpchan.HandlerMap
-	var ipc *inprocgrpc.Channel
-	var hs *httpgrpc.Server
-	switch c.Carrier {
-	case "direct":
-		hm = grpchan.HandlerMap{}
-		registry = hm
-	case "inproc":
-		ipc = &inprocgrpc.Channel{}
-		if tU != nil {
-			ipc.WithServerUnaryInterceptor(tU)
+	// the carrier(s), each with its transport-level interceptors
+	mkTarget := func(who string, beh int) *target {
+		t := &target{who: who, beh: beh}
+		if c.Kind == "unary" {
+			t.tU, t.tS = mkUnary(l, who, beh), mkStream(l, "xT", other(c.OT))
+		} else {
+			t.tS, t.tU = mkStream(l, who, beh), mkUnary(l, "xT", other(c.OT))
 		}
-		if tS != nil {
-			ipc.WithServerStreamInterceptor(tS)
+		switch c.Carrier {
+		case "direct":
+		case "inproc":
+			t.ipc = &inprocgrpc.Channel{}
+			if t.tU != nil {
+				t.ipc.WithServerUnaryInterceptor(t.tU)
+			}
+			if t.tS != nil {
+				t.ipc.WithServerStreamInterceptor(t.tS)
+			}
+			t.reg = t.ipc
+		case "http":
+			var opts []httpgrpc.ServerOption
+			if t.tU != nil {
+				opts = append(opts, httpgrpc.WithServerUnaryInterceptor(t.tU))
+			}
+			if t.tS != nil {
+				opts = append(opts, httpgrpc.WithServerStreamInterceptor(t.tS))
+			}
+			t.hs = httpgrpc.NewServer(opts...)
+			t.reg = t.hs
+		default:
+			panic("bad carrier")
 		}
-		registry = ipc
-	case "http":
-		var opts []httpgrpc.ServerOption
-		if tU != nil {
-			opts = append(opts, httpgrpc.WithServerUnaryInterceptor(tU))
-		}
-		if tS != nil {
-			opts = append(opts, httpgrpc.WithServerStreamInterceptor(tS))
-		}
-		hs = httpgrpc.NewServer(opts...)
-		registry = hs
-	default:
-		panic("bad carrier")
+		return t
 	}
+	var targets []*target
+	hm := grpchan.HandlerMap{}
+	var registry grpc.ServiceRegistrar = hm // direct carrier and sharing cases decorate around a HandlerMap
+	shared := len(c.Seq) > 0
+	if !shared {
+		t := mkTarget("T", c.T)
+		targets = []*target{t}
+		if t.reg != nil {
+			registry = t.reg
+		}
+	} else {
+		for _, s := range c.Seq {
+			beh := bPass
+			if s == 0 {
+				beh = bNil
+			}
+			targets = append(targets, mkTarget(seqNames[s], beh))
+		}
+	}
+	viaMap := c.Carrier == "direct" || shared
 
 	// decoration
 	var final *grpc.ServiceDesc
@@ -515,12 +574,20 @@ func runCase(c caseT, verbose bool) (probs []problem, observed string) {
 			r = r2
 		}
 		r.RegisterService(d0, srv)
-		if c.Carrier == "direct" {
+		if viaMap {
 			var h interface{}
 			final, h = hm.QueryService(svcName)
 			if final == nil || h != srv {
 				add("registration-lost", "", fmt.Sprintf("after RegisterService through WithInterceptor the registry has (%v, %v)", final, h))
 				return
+			}
+		}
+	}
+	if shared {
+		// contribute the ONE decorated registration to every carrier
+		for _, t := range targets {
+			if t.reg != nil {
+				hm.ForEach(t.reg.RegisterService)
 			}
 		}
 	}
@@ -546,96 +613,104 @@ func runCase(c caseT, verbose bool) (probs []problem, observed string) {
 			sub += fmt.Sprintf(",cs=%v,ss=%v", cs, ss)
 		}
 		full := "/" + svcName + "/" + method
-		want := expect(c, method)
-		l.take()
-		res := call(c, method, full, cs, ss, final, srv, tU, tS, ipc, hs)
-		es := l.take()
-		got := whos(es)
-		o := fmt.Sprintf("%s: log=%v result=(%q %v err=%v)", method, got, res.respVal, res.msgs, res.err)
-		obs = append(obs, o)
-		if verbose {
-			fmt.Println("  " + o + fmt.Sprintf("   expected log=%v", want.log))
-		}
-		if res.panicked != nil {
-			add("panic", sub, fmt.Sprintf("call %s panicked: %v", full, res.panicked))
-			continue
-		}
-		if cl := classifyLog(got, want.log); cl != "" {
-			add(cl, sub, fmt.Sprintf("call %s: event log %v, expected %v", full, got, want.log))
-			continue
-		}
-		// per-event checks
-		var firstReq interface{}
-		var firstStream grpc.ServerStream
-		for k, e := range es {
-			if e.who == "H" {
-				if e.method != method {
-					add("wrong-method-handler", sub, fmt.Sprintf("call %s ran the handler of %s", full, e.method))
+		msub := sub
+		for k, t := range targets {
+			sub := msub
+			if shared {
+				sub += fmt.Sprintf(",call=%d:%s", k, t.who)
+			}
+			want := expect(c, c.chainWith(t.who, t.beh), method)
+			l.take()
+			res := call(c, method, full, cs, ss, final, srv, t.tU, t.tS, t.ipc, t.hs)
+			es := l.take()
+			got := whos(es)
+			o := fmt.Sprintf("%s"+map[bool]string{true: "@" + t.who, false: ""}[shared]+": log=%v result=(%q %v err=%v)", method, got, res.respVal, res.msgs, res.err)
+			obs = append(obs, o)
+			if verbose {
+				fmt.Println("  " + o + fmt.Sprintf("   expected log=%v", want.log))
+			}
+			if res.panicked != nil {
+				add("panic", sub, fmt.Sprintf("call %s panicked: %v", full, res.panicked))
+				continue
+			}
+			if cl := classifyLog(got, want.log); cl != "" {
+				add(cl, sub, fmt.Sprintf("call %s: event log %v, expected %v", full, got, want.log))
+				continue
+			}
+			// per-event checks
+			var firstReq interface{}
+			var firstStream grpc.ServerStream
+			for k, e := range es {
+				if e.who == "H" {
+					if e.method != method {
+						add("wrong-method-handler", sub, fmt.Sprintf("call %s ran the handler of %s", full, e.method))
+					}
+					if e.srv != interface{}(srv) {
+						add("handler-srv", sub, fmt.Sprintf("call %s: handler got srv %v, registered %v", full, e.srv, srv))
+					}
+					if e.reqValue != "req:"+method {
+						add("request-value", sub, fmt.Sprintf("call %s: handler read request %q, sent %q", full, e.reqValue, "req:"+method))
+					}
+				} else {
+					if e.fullMethod != full {
+						add("full-method", e.who+","+sub, fmt.Sprintf("call %s: interceptor %s was told FullMethod %q", full, e.who, e.fullMethod))
+					}
+					if c.Kind == "stream" && (e.cs != cs || e.ss != ss) {
+						add("stream-flags", e.who+","+sub, fmt.Sprintf("call %s (client=%v server=%v): interceptor %s was told IsClientStream=%v IsServerStream=%v", full, cs, ss, e.who, e.cs, e.ss))
+					}
 				}
-				if e.srv != interface{}(srv) {
-					add("handler-srv", sub, fmt.Sprintf("call %s: handler got srv %v, registered %v", full, e.srv, srv))
+				if c.Kind == "unary" {
+					if k == 0 {
+						firstReq = e.req
+					} else if e.req != firstReq {
+						add("request-identity", sub, fmt.Sprintf("call %s: %s saw a different request object than %s", full, e.who, es[0].who))
+					}
+				} else {
+					if k == 0 {
+						firstStream = e.stream
+					} else if e.stream != firstStream {
+						add("stream-identity", sub, fmt.Sprintf("call %s: %s saw a different stream object than %s", full, e.who, es[0].who))
+					}
 				}
-				if e.reqValue != "req:"+method {
-					add("request-value", sub, fmt.Sprintf("call %s: handler read request %q, sent %q", full, e.reqValue, "req:"+method))
+				if e.called && k+1 < len(es) {
+					nx := es[k+1]
+					if e.gotResp != nx.retResp || e.gotErr != nx.retErr {
+						add("result-passthrough", sub, fmt.Sprintf("call %s: %s got (%v, %v) from calling onward but %s returned (%v, %v)", full, e.who, e.gotResp, e.gotErr, nx.who, nx.retResp, nx.retErr))
+					}
+				}
+			}
+			// what the caller sees
+			if c.Carrier == "direct" {
+				top := es[0]
+				if c.Kind == "unary" && res.resp != top.retResp {
+					add("caller-result", sub, fmt.Sprintf("call %s: caller got response %v, %s returned %v", full, res.resp, top.who, top.retResp))
+				}
+				if res.err != top.retErr {
+					add("caller-result", sub, fmt.Sprintf("call %s: caller got error %v, %s returned %v", full, res.err, top.who, top.retErr))
+				}
+				if c.Kind == "stream" && !reflect.DeepEqual(res.msgs, want.msgs) && !(len(res.msgs) == 0 && len(want.msgs) == 0) {
+					add("caller-result", sub, fmt.Sprintf("call %s: messages sent %v, expected %v", full, res.msgs, want.msgs))
 				}
 			} else {
-				if e.fullMethod != full {
-					add("full-method", e.who+","+sub, fmt.Sprintf("call %s: interceptor %s was told FullMethod %q", full, e.who, e.fullMethod))
+				st, _ := status.FromError(res.err)
+				if res.err == io.EOF {
+					st = status.New(codes.OK, "")
 				}
-				if c.Kind == "stream" && (e.cs != cs || e.ss != ss) {
-					add("stream-flags", e.who+","+sub, fmt.Sprintf("call %s (client=%v server=%v): interceptor %s was told IsClientStream=%v IsServerStream=%v", full, cs, ss, e.who, e.cs, e.ss))
-				}
-			}
-			if c.Kind == "unary" {
-				if k == 0 {
-					firstReq = e.req
-				} else if e.req != firstReq {
-					add("request-identity", sub, fmt.Sprintf("call %s: %s saw a different request object than %s", full, e.who, es[0].who))
-				}
-			} else {
-				if k == 0 {
-					firstStream = e.stream
-				} else if e.stream != firstStream {
-					add("stream-identity", sub, fmt.Sprintf("call %s: %s saw a different stream object than %s", full, e.who, es[0].who))
-				}
-			}
-			if e.called && k+1 < len(es) {
-				nx := es[k+1]
-				if e.gotResp != nx.retResp || e.gotErr != nx.retErr {
-					add("result-passthrough", sub, fmt.Sprintf("call %s: %s got (%v, %v) from calling onward but %s returned (%v, %v)", full, e.who, e.gotResp, e.gotErr, nx.who, nx.retResp, nx.retErr))
+				if st.Code() != want.code || (want.code != codes.OK && st.Message() != want.msg) {
+					add("client-status", sub, fmt.Sprintf("call %s: client got %v, expected code=%v msg=%q", full, res.err, want.code, want.msg))
+				} else if want.code == codes.OK {
+					if c.Kind == "unary" && res.respVal != want.resp {
+						add("client-response", sub, fmt.Sprintf("call %s: client got response %q, expected %q", full, res.respVal, want.resp))
+					}
+					if c.Kind == "stream" && !reflect.DeepEqual(res.msgs, want.msgs) {
+						add("client-response", sub, fmt.Sprintf("call %s: client got messages %v, expected %v", full, res.msgs, want.msgs))
+					}
+				} else if c.Kind == "stream" && ss && !reflect.DeepEqual(res.msgs, want.msgs) && !(len(res.msgs) == 0 && len(want.msgs) == 0) {
+					add("client-response", sub, fmt.Sprintf("call %s: client got messages %v before the error, expected %v", full, res.msgs, want.msgs))
 				}
 			}
 		}
-		// what the caller sees
-		if c.Carrier == "direct" {
-			top := es[0]
-			if c.Kind == "unary" && res.resp != top.retResp {
-				add("caller-result", sub, fmt.Sprintf("call %s: caller got response %v, %s returned %v", full, res.resp, top.who, top.retResp))
-			}
-			if res.err != top.retErr {
-				add("caller-result", sub, fmt.Sprintf("call %s: caller got error %v, %s returned %v", full, res.err, top.who, top.retErr))
-			}
-			if c.Kind == "stream" && !reflect.DeepEqual(res.msgs, want.msgs) && !(len(res.msgs) == 0 && len(want.msgs) == 0) {
-				add("caller-result", sub, fmt.Sprintf("call %s: messages sent %v, expected %v", full, res.msgs, want.msgs))
-			}
-		} else {
-			st, _ := status.FromError(res.err)
-			if res.err == io.EOF {
-				st = status.New(codes.OK, "")
-			}
-			if st.Code() != want.code || (want.code != codes.OK && st.Message() != want.msg) {
-				add("client-status", sub, fmt.Sprintf("call %s: client got %v, expected code=%v msg=%q", full, res.err, want.code, want.msg))
-			} else if want.code == codes.OK {
-				if c.Kind == "unary" && res.respVal != want.resp {
-					add("client-response", sub, fmt.Sprintf("call %s: client got response %q, expected %q", full, res.respVal, want.resp))
-				}
-				if c.Kind == "stream" && !reflect.DeepEqual(res.msgs, want.msgs) {
-					add("client-response", sub, fmt.Sprintf("call %s: client got messages %v, expected %v", full, res.msgs, want.msgs))
-				}
-			} else if c.Kind == "stream" && ss && !reflect.DeepEqual(res.msgs, want.msgs) && !(len(res.msgs) == 0 && len(want.msgs) == 0) {
-				add("client-response", sub, fmt.Sprintf("call %s: client got messages %v before the error, expected %v", full, res.msgs, want.msgs))
-			}
-		}
+
 	}
 
 	// the input description must be untouched: structurally ...
@@ -785,7 +860,7 @@ func enumerate(tier string, fn func(caseT)) {
 		}
 		shs := full
 		if depth == 2 && tier != "thorough" {
-			shs = reduced // quick: nesting on 9 shapes (0-2 unary x {no stream, [client,server], [bidi,neither]})
+			shs = reduced // quick: nesting on 21 shapes (0-2 unary x {no stream, one stream of each flag pair, [client,server], [bidi,neither]})
 		}
 		for _, sh := range shs {
 			for _, carrier := range []string{"direct", "inproc", "http"} {
@@ -834,6 +909,65 @@ func fingerprint(c caseT, pr problem) string {
 	return fmt.Sprintf("C16|%s|%s|%s|depth=%d|%s|%s|%s", c.Carrier, c.Form, c.Kind, c.Depth, c.chainStr(), pr.sub, pr.clause)
 }
 
+// enumerateShared: sharing cases (see caseT.Seq). One decorated description, several
+// carriers / successive calls with transport-level interceptor sequences over {none, A, B}.
+func enumerateShared(tier string, fn func(caseT)) {
+	var seqs [][]int
+	for n := 2; n <= 3; n++ {
+		total := 1
+		for i := 0; i < n; i++ {
+			total *= 3
+		}
+		for x := 0; x < total; x++ {
+			q := make([]int, n)
+			y := x
+			for i := n - 1; i >= 0; i-- {
+				q[i] = y % 3
+				y /= 3
+			}
+			seqs = append(seqs, q)
+		}
+	}
+	set := []int{bPass, bShort, bFail, bRewrite}
+	bools := []bool{false, true}
+	for depth := 1; depth <= 2; depth++ {
+		d2s := []int{bNil}
+		if depth == 2 {
+			d2s = set
+			if tier != "thorough" {
+				d2s = []int{bPass}
+			}
+		}
+		shs := shapes(false)
+		if tier != "thorough" {
+			shs = []shape{{1, nil}, {0, []int{3}}, {2, []int{1, 2}}, {1, []int{3, 0}}}
+		}
+		for _, sh := range shs {
+			for _, carrier := range []string{"direct", "inproc", "http"} {
+				for _, form := range []string{"IS", "WI"} {
+					for _, kind := range []string{"unary", "stream"} {
+						if (kind == "unary" && sh.U == 0) || (kind == "stream" && len(sh.Flags) == 0) {
+							continue
+						}
+						for _, seq := range seqs {
+							for _, d1 := range set {
+								for _, d2 := range d2s {
+									for _, od1 := range bools {
+										for _, herr := range bools {
+											fn(caseT{Carrier: carrier, Form: form, U: sh.U, Flags: sh.Flags, Depth: depth, Kind: kind,
+												D1: d1, D2: d2, OD1: od1, HErr: herr, Seq: seq})
+										}
+									}
+								}
+							}
+						}
+					}
+				}
+			}
+		}
+	}
+}
+
 func main() {
 	rep := vlib.NewReporter("C16")
 	go func() { // hang guard
@@ -872,12 +1006,19 @@ func main() {
 	var samples []interface{}
 	suppressedFPs := map[string]bool{}
 	const maxReported = 100
-	enumerate(rep.Tier, func(c caseT) {
+	sharedCases := 0
+	visit := func(c caseT) {
 		evals++
+		if len(c.Seq) > 0 {
+			sharedCases++
+		}
 		probs, obs := runCase(c, false)
 		n := c.U
 		if c.Kind == "stream" {
 			n = len(c.Flags)
+		}
+		if len(c.Seq) > 0 {
+			n *= len(c.Seq)
 		}
 		calls += n
 		if n > 0 && len(c.chain()) > 0 {
@@ -894,22 +1035,25 @@ func main() {
 			}
 			rep.Violation(fp, pr.what+"   ["+c.String()+"]", c)
 		}
-	})
+	}
+	enumerate(rep.Tier, visit)
+	enumerateShared(rep.Tier, visit)
 	suppressed := len(suppressedFPs)
 	if suppressed > 0 {
 		fmt.Printf("(%d further distinct fingerprints not reported individually after the first %d)\n", suppressed, maxReported)
 	}
 	os.Exit(rep.Finish("exploration", map[string]interface{}{
 		"evaluations":         evals,
+		"sharing_cases":       sharedCases,
 		"rpc_calls":           calls,
 		"distinct_nontrivial": len(distinct),
-		"rule":                "every configuration of: descriptor shape (0-2 unary x 0-2 streams with every flag pair) x carrier (direct call of the decorated descriptor / inprocgrpc.Channel / httpgrpc.Server via HandlerRT) x form (InterceptServer / WithInterceptor) x depth x kind called x behaviour {nil,pass,short-circuit,fail,rewrite} of the transport-level, outer and inner interceptor of that kind x nil/set of each interceptor of the other kind x handler ok/error; every method of the kind is called. Behaviours of other-kind interceptors are not varied because the oracle demands they are never invoked. A configuration is non-trivial when at least one method is called and at least one interceptor is on its path; distinct by all parameters.",
+		"rule":                "every configuration of: descriptor shape (0-2 unary x 0-2 streams with every flag pair) x carrier (direct call of the decorated descriptor / inprocgrpc.Channel / httpgrpc.Server via HandlerRT) x form (InterceptServer / WithInterceptor) x depth x kind called x behaviour {nil,pass,short-circuit,fail,rewrite} of the transport-level, outer and inner interceptor of that kind x nil/set of each interceptor of the other kind x handler ok/error; every method of the kind is called. Behaviours of other-kind interceptors are not varied because the oracle demands they are never invoked. In addition the SHARING cases: one decorated description (InterceptServer) or decorated HandlerMap (WithInterceptor), outer decoration behaviour {pass,short,fail,rewrite} x inner {none; quick: pass; thorough: all four} on 4 (quick) / 21 (thorough) shapes, is contributed through HandlerMap.ForEach/RegisterService to 2 or 3 in-process channels / HTTP servers, or its handler is called directly 2 or 3 times, with every sequence over {no transport interceptor, A, B} of length 2 and 3; every method of the kind is called on every carrier in turn, same oracle per call. A configuration is non-trivial when at least one method is called and at least one interceptor is on its path; distinct by all parameters.",
 		"samples":             samples,
 		"exhaustive":          true,
 		"suppressed_reports":  suppressed,
 	}, []string{
 		"original descriptors follow the contract of generated code (decode, then run the interceptor argument around the application method)",
 		"a panic in a server goroutine of the in-process channel would abort the checker (exit 2) instead of being reported",
-		"quick = nesting depth 1 on all 63 descriptor shapes + depth 2 on 9 shapes (0-2 unary x {no stream, [client-only, server-only], [bidi, neither]}); thorough = depths 1 and 2 on all 63 shapes",
+		"quick = nesting depth 1 on all 63 descriptor shapes + depth 2 on 21 shapes (0-2 unary x {no stream, one stream of each flag pair, [client-only, server-only], [bidi, neither]}); thorough = depths 1 and 2 on all 63 shapes",
 	}))
 }
